@@ -156,9 +156,13 @@ Definition sentry := (bytes * bytes * bytes)%type.    (* domain, ClientID, addre
 Record store := {
   st_mem : list lentry;       (* memory buffer, oldest first *)
   st_file : list lentry;      (* querylog.json, oldest first *)
-  st_stats : list sentry      (* what the current unit was updated with *)
+  st_has_file : bool;         (* querylog.json exists (possibly empty) *)
+  st_old : list lentry;       (* querylog.json.1, the rotated file *)
+  st_stats : list sentry;     (* what the current unit was updated with *)
+  st_units : list (list sentry)   (* the units flushed to stats.db, oldest first *)
 }.
-Definition empty_store : store := {| st_mem := []; st_file := []; st_stats := [] |}.
+Definition empty_store : store :=
+  {| st_mem := []; st_file := []; st_has_file := false; st_old := []; st_stats := []; st_units := [] |}.
 
 Definition log_entry (ev : env) (q : query) : lentry :=
   (normalize (q_name q), recorded_ip ev q, q_cid q).
@@ -172,12 +176,37 @@ Definition stat_entry (ev : env) (q : query) : sentry :=
     domain; NormalizeDomain never yields one for a non-empty question name.) *)
 Definition process (ev : env) (q : query) (st : store) : store :=
   {| st_mem := if should_log ev q then st_mem st ++ [log_entry ev q] else st_mem st;
-     st_file := st_file st;
-     st_stats := if should_count ev q then st_stats st ++ [stat_entry ev q] else st_stats st |}.
+     st_file := st_file st; st_has_file := st_has_file st; st_old := st_old st;
+     st_stats := if should_count ev q then st_stats st ++ [stat_entry ev q] else st_stats st;
+     st_units := st_units st |}.
 
-(** queryLog.Shutdown / flushLogBuffer *)
+(** queryLog.Shutdown / flushLogBuffer: an empty buffer is "nothing to write"
+    (no file is created); otherwise the records are appended to querylog.json,
+    which is created if missing. *)
 Definition flush (st : store) : store :=
-  {| st_mem := []; st_file := st_file st ++ st_mem st; st_stats := st_stats st |}.
+  {| st_mem := []; st_file := st_file st ++ st_mem st;
+     st_has_file := st_has_file st || negb (Nat.eqb (length (st_mem st)) 0);
+     st_old := st_old st; st_stats := st_stats st; st_units := st_units st |}.
+
+(** queryLog.rotate: os.Rename(querylog.json, querylog.json.1).  The previous
+    querylog.json.1 is overwritten; a missing querylog.json is "no log to
+    rotate".  The memory buffer is not touched. *)
+Definition rotate (st : store) : store :=
+  if st_has_file st then
+    {| st_mem := st_mem st; st_file := []; st_has_file := false; st_old := st_file st;
+       st_stats := st_stats st; st_units := st_units st |}
+  else st.
+
+(** StatsCtx.flush when the hour has changed: the current unit is written to
+    stats.db under its id, a new empty unit starts.  (ASSUMED: fewer hours pass
+    inside a history than the retention limit, so no stored unit leaves the
+    window of the reports; the window arithmetic is C09's.) *)
+Definition roll (st : store) : store :=
+  {| st_mem := st_mem st; st_file := st_file st; st_has_file := st_has_file st; st_old := st_old st;
+     st_stats := []; st_units := st_units st ++ [st_stats st] |}.
+
+(** Everything the statistics hold: the stored units, then the current one. *)
+Definition all_stats (st : store) : list sentry := concat (st_units st) ++ st_stats st.
 
 (** * The search side: both tests are applied again, with the CURRENT ignore
     list and registry, to memory and file entries alike; the client is looked
@@ -196,9 +225,10 @@ Definition visible (ev : env) (mac_of : bytes -> option bytes) (e : lentry) : bo
   negb (e_qign ev (fst (fst e))) &&
   negb (qlog_client_ignored (e_ix ev) (e_dhcp ev) (stored_ids mac_of e)).
 
-(** Unfiltered search (newest first): memory, then file. *)
+(** Unfiltered search (newest first): memory, then querylog.json, then the
+    rotated querylog.json.1. *)
 Definition search (ev : env) (mac_of : bytes -> option bytes) (st : store) : list lentry :=
-  filter (visible ev mac_of) (rev (st_mem st) ++ rev (st_file st)).
+  filter (visible ev mac_of) (rev (st_mem st) ++ rev (st_file st) ++ rev (st_old st)).
 
 (** What GET /control/querylog reports: the stored address passed once more
     through the anonymizer in force at the time of the request. *)
@@ -207,7 +237,8 @@ Definition reported (ev : env) (e : lentry) : lentry :=
 Definition search_report (ev : env) (mac_of : bytes -> option bytes) (st : store) : list lentry :=
   map (reported ev) (search ev mac_of st).
 
-(** * What GET /control/stats reports: top domains are filtered once more by
+(** * What GET /control/stats reports (the units of the window merged with
+    the current one): top domains are filtered once more by
     the current ignore list (topsCollector), top clients by shouldCountClient
     applied to the stored client key (topClientPairs). *)
 Definition stat_key_id (mac_of : bytes -> option bytes) (s : sentry) : id :=
@@ -218,9 +249,9 @@ Definition stat_domain_visible (ev : env) (s : sentry) : bool := negb (e_sign ev
 Definition stat_client_visible (ev : env) (mac_of : bytes -> option bytes) (s : sentry) : bool :=
   stats_client_counted (e_ix ev) (e_dhcp ev) [stat_key_id mac_of s].
 Definition stats_domains (ev : env) (st : store) : list bytes :=
-  map (fun s => fst (fst s)) (filter (stat_domain_visible ev) (st_stats st)).
+  map (fun s => fst (fst s)) (filter (stat_domain_visible ev) (all_stats st)).
 Definition stats_clients (ev : env) (mac_of : bytes -> option bytes) (st : store) : list sentry :=
-  filter (stat_client_visible ev mac_of) (st_stats st).
+  filter (stat_client_visible ev mac_of) (all_stats st).
 
 (** * Query-log configuration: the configured flag and the shared mutator *)
 Record qconf := {
